@@ -21,6 +21,8 @@ NewFails(bpp, w, h, it) ==
   LET want == ExpectedLen(w, h, bpp) IN
        (IF it[2] = 1 /\ it[1] # want THEN {"new_accepts_wrong_length"} ELSE {})
   \cup (IF it[2] = 0 /\ it[1] = want THEN {"new_rejects_required_length"} ELSE {})
+  \* it[2] = 2 / 3: new_const (the constructor for const contexts) rejected / accepted a buffer that new() accepted / rejected
+  \cup (IF it[2] \in {2, 3} THEN {"new_const_differs_from_new"} ELSE {})
 NewExpectedOK(bpp, w, h, it) == it[2] = 0 => it[3] = ExpectedLen(w, h, bpp)
 
 \* probes <<x, y, option>> of pixel(): None exactly outside the box, the layout value inside
